@@ -1,7 +1,9 @@
 """C10 — map-matched positions lie on a real edge within the search radius
-(tracklib/algo/mapping.py mapOnNetwork / __mapOnNetwork / __distToNode / __projOnTrack; the candidate edge
-numbers come from the real spatial index and the decoded indices from the real HMM — both are parameters of
-the model, which covers the candidate construction, the flag state, the inference column and the track)."""
+(tracklib/algo/mapping.py mapOnNetwork / __mapOnNetwork / __distToNode / __projOnTrack, the construction path
+core/network.py addNode / addEdge + computeAbsCurv on the edge geometries, the spatial index through the model of C08).
+Two models are run on every case: the core (Model/MapMatch: candidate loop, flag state, inference column) on the real
+candidate lists in their real order with the real decoded indices, and the composed one (Model/MapMatchNet: network
+construction, index, search unit, candidates, front end) which is only told which edge the real decoder chose."""
 import json, math, os, tempfile
 from fractions import Fraction as F
 from engine import Prop, fbits, bitsf, close, err_kind
@@ -31,24 +33,48 @@ class P(Prop):
         (M, "TV.C10.timestamps_preserved", "every mode: count and timestamps unchanged"),
         (M, "TV.C10.decoder_in_range_total", "a decoder answering in-range indices never makes the backward step fail"),
         (M, "TV.C10.viterbi_decoder_total", "with the Viterbi model of C09 over any cost tables, the decoded indices are in range (candidate lists are never empty), so the backward step never fails"),
+        (M, "TV.C10.abs_curv_prefix_lengths", "computeAbsCurv on an edge geometry: abs_curv[i] is the length of the geometry up to vertex i, the last value is the edge length"),
+        (M, "TV.C10.dist_to_nodes_along_edge", "__distToNode of a point of segment i: length of the geometry from its first vertex to the point, resp. from the point to its last vertex; they add up to the edge length"),
+        (M, "TV.C10.addEdge_keeps_geometry", "Network.addEdge stores the geometry and its abs_curv column as given, leaves every other edge and every registered node (first coordinates) untouched"),
+        (M, "TV.C10.built_network_edges", "a network built by addEdge calls with distinct edge ids (index attached after or before the last edges) has, under edge number n, the n-th geometry handed over, unchanged"),
+        (M, "TV.C10.states_flag_or_matched", "STATES[i] is the flag state alone or a non-empty list of matched states (existing edge number, point on that geometry, d < radius, along-edge distances adding up to the length)"),
+        (M, "TV.C10.flag_iff_out_of_reach", "STATES[i] contains a flag state iff no candidate edge projects strictly within the radius; a matched state never has edge number -1"),
+        (M, "TV.C10.front_end_sound", "mapOnNetwork on a bare track or a collection, any decoder, any index attached to the network: every processed track keeps its observations and every hmm_inference entry is the flag state or matched on the geometry stored in the network"),
+        (M, "TV.C10.front_end_tracks_independent", "the result of the j-th track is the result of matching it alone; a bare Track = collection of one; transition_cost / debug / verbose influence nothing; without exception every track is processed"),
+        (M, "TV.C10.front_end_track_preserved", "observations unchanged; obs_noise / hmm_inference / hmm_cost created when absent, existing names kept; an existing obs_noise column keeps its content"),
+        (M, "TV.C10.matched_on_built_network", "on a network built by addEdge from computeAbsCurv-made edges with distinct ids, a matched state names the number n of an edge handed over and lies on THAT geometry, with along-edge distances adding up to its length"),
+        (M, "TV.C10.viterbi_inference", "with Viterbi.decode (C09: decode_succeeds, decoded_valid) over any cost tables sized like the candidate lists: no exception, hmm_inference[k] is one of STATES[k]"),
+        (M, "TV.C10.near_edge_is_candidate", "with the index of C08 (neighborhood_complete): an edge with a point within d of the observation is a candidate whenever the unit computed by __mapOnNetwork is groundDistanceToUnits(d)"),
     ]
     partial = []
-    open_statements = ["the spatial index (candidate edge numbers) and the HMM decoder (indices) are parameters: completeness of the candidates (no edge within the radius is missed) "
-                       "is not claimed by the property and not proved; exceptions (ZeroDivisionError on vertical segments, OverflowError in the transition model) are outside the "
-                       "theorems and reported as findings"]
-    modelled = ("algo/mapping.py __mapOnNetwork: candidate loop (projection on the edge geometry, d < search_radius, __distToNode from abs_curv), flag state, "
-                "hmm_inference from the decoded indices, created feature columns, positions untouched for mode 1; computeAbsCurv (ds + INTEGRATOR). "
-                "Parameters of the model (taken from the real run): spatial_index.neighborhood results, HMM-decoded state indices")
-    rule = ("grid-like and random networks on an integer lattice and on two-decimal coordinates (oblique / horizontal / vertical, 2..4-vertex edges, arbitrary "
-            "edge and node ids), spatial index of several cell sizes and margins, tracks of 1..7 observations on / near / far from the network (outside the index "
-            "included), several radii and noise values; SESSION stream: on one network / index object, 1..3 calls of mapOnNetwork, the first on a "
-            "TrackCollection of 2..3 tracks of different lengths that are not co-located, later calls on collections or bare tracks, tracks matched again "
-            "(their obs_noise / hmm_inference / hmm_cost columns already exist), user features with those names, radius and noise changing between calls; "
-            "the oracle is applied to every track of every call through its own hmm_inference column, and the candidate lists the decoder is given for "
-            "each track (captured at HMM.estimate) are compared with the model's. non-trivial = at least one observation within the radius of an edge")
-    trusted = ["the candidate edge numbers (SpatialIndex.neighborhood) and the decoded indices (HMM.estimate) are inputs of the model, captured from the real call "
-               "(instance / class attributes wrapped for the duration of a case, no source hook); the candidate lists the decoder receives for each track are read through "
-               "the HMM's own state function at the entry of HMM.estimate"]
+    open_statements = ["completeness of the candidates in terms of the search radius (no edge within the radius is missed) is not claimed by the property and does not hold in general: "
+                       "__mapOnNetwork derives the search unit from the NUMBERS of cells (ceil(search_radius / min(csize, lsize))), not from the cell size; near_edge_is_candidate states "
+                       "the hypothesis under which C08's completeness carries over",
+                       "the decoder's choice among the candidates (which sound candidate is inferred) is C09's subject; here only that the inferred state is one of STATES[k]",
+                       "exceptions are outside the theorems (every statement is about a call that returns): ZeroDivisionError of the projection on a vertical segment (finding D16, class "
+                       "vertical-segment-zerodiv), UnboundLocalError on a candidate edge all of whose vertices coincide (class zero-length-edge-unbound), AnalyticalFeatureError on a track "
+                       "without observation",
+                       "IEEE rounding: the theorems are over an ordered field with an exact square root; the float behaviour is sampled by the transfer check (tolerance 1e-9 relative)"]
+    modelled = ("algo/mapping.py mapOnNetwork (bare track / collection / iterable, gps_noise, transition_cost, search_radius, debug, verbose), __mapOnNetwork (obs_noise column, search unit, "
+                "neighborhood call, candidate loop: projection on EDGES[getEdgeId(elem)].geom, d < search_radius, __distToNode from abs_curv; flag state; hmm_inference from the decoded "
+                "indices; created feature columns; positions untouched for mode 1), __distToNode, __projOnTrack; core/network.py Node, Edge, Network.addNode / addEdge (node table, EDGES, "
+                "__idx_edges, registration in an attached index), getEdgeId, getNumberOfEdges, __getitem__, bbox; algo/cinematics.py computeAbsCurv (ds + INTEGRATOR) on edge geometries; "
+                "core/spatial_index.py through Model/Grid (C08): constructor on the network, addFeature, neighborhood(coord, unit). Parameter of the model (taken from the real run): the "
+                "HMM-decoded states (given to the composed model as edge numbers, to the core model as indices); the core model is also run on the real candidate lists in their real order")
+    rule = ("grid-like and random networks on an integer lattice and on two-decimal coordinates (oblique / horizontal / vertical, 2..4-vertex edges, arbitrary edge and node ids); REAL "
+            "stream: networks as data delivers them — node ids shared by edges whose end vertices differ (tolerance-merged, 0.01..0.6), separate node tables, edges with up to 13 vertices, "
+            "repeated vertices, zero-length edges, loops, parallel edges, one-way edges, two components — built by hand (Node from the end positions), from a node table, through "
+            "NetworkReader.readFromFile (CSV/WKT, string ids), or with the index attached before the last edges (addEdge registers them), integer or string ids; spatial index of several "
+            "cell sizes and margins, tracks of 1..7 observations (a third of the real stream: 1..2) on / near / far from the network, exactly on nodes and vertices, outside the index "
+            "extent, several radii and noise values; SESSION stream: on one network / index object, 1..3 calls of mapOnNetwork, the first on a TrackCollection of 2..3 tracks of different "
+            "lengths that are not co-located, later calls on collections, plain lists or bare tracks, tracks matched again (their obs_noise / hmm_inference / hmm_cost columns already "
+            "exist), user features with those names, radius and noise changing between calls, transition_cost / debug / verbose / positional arguments; the oracle is applied to every "
+            "track of every call through its own hmm_inference column and measures on Edge.geom as read back from the network after the call; the network state after construction "
+            "(geometries, abs_curv columns, node table, edge ends, grid) and per track STATES (as sets, and in the real order), hmm_inference, feature names, obs_noise column and "
+            "positions are compared with the model's. non-trivial = at least one observation within the radius of an edge")
+    trusted = ["the decoded states (HMM.estimate) are an input of the model, captured from the real call (class attribute wrapped for the duration of a case, no source hook); the candidate "
+               "lists the decoder receives for each track are read through the HMM's own state function at the entry of HMM.estimate; the real candidate order (SpatialIndex.neighborhood "
+               "returns list(set)) is captured by wrapping the instance attribute and fed to the core model, the composed model computes the candidates itself (compared as sets)"]
 
     def setup(self):
         import tracklib
